@@ -275,6 +275,40 @@ func c18Degenerate() *core.Space {
 	}
 }
 
+// typedTarget3: a third typed mirror - every scalar is read as text.
+func typedTarget3(v interface{}) reflect.Type {
+	switch x := v.(type) {
+	case map[string]interface{}:
+		keys := make([]string, 0, len(x))
+		for k := range x {
+			keys = append(keys, k)
+		}
+		sort.Strings(keys)
+		var fs []reflect.StructField
+		for _, k := range keys {
+			fs = append(fs, reflect.StructField{Name: "F" + strings.ToUpper(k), Type: typedTarget3(x[k]), Tag: reflect.StructTag(fmt.Sprintf(`config:"%s"`, k))})
+		}
+		return reflect.StructOf(fs)
+	case []interface{}:
+		if len(x) > 0 {
+			t0 := typedTarget3(x[0])
+			same := true
+			for _, e := range x[1:] {
+				if typedTarget3(e) != t0 {
+					same = false
+				}
+			}
+			if same && t0 != tIface {
+				return reflect.SliceOf(t0)
+			}
+		}
+		return reflect.TypeOf([]interface{}(nil))
+	case string, bool, float64:
+		return reflect.TypeOf("")
+	}
+	return tIface
+}
+
 // typedText renders a typed result with numbers by value (interface{} elements keep the
 // decoder's number type).
 func typedText(v reflect.Value) string {
@@ -343,7 +377,7 @@ func c18Space(ts []*tree.Node, offsets []int) *core.Space {
 			var res core.Result
 			pi := core.Guard(func() {
 				var rawCanon, cfgCanon [3]string
-				var typed, typed2, keySets [3]string
+				var typed, typed2, typed3, keySets [3]string
 				valid := true
 				for k, fe := range c18FrontEnds {
 					raw, err := fe.Decode(b)
@@ -388,6 +422,12 @@ func c18Space(ts []*tree.Node, offsets []int) *core.Space {
 							typed[k] = "error"
 						} else {
 							typed[k] = typedText(tgt.Elem())
+						}
+						tgt3 := reflect.New(typedTarget3(js))
+						if err := cfg.Unpack(tgt3.Interface(), os_.Opts...); err != nil {
+							typed3[k] = "error"
+						} else {
+							typed3[k] = typedText(tgt3.Elem())
 						}
 						tgt2 := reflect.New(typedTarget2(js))
 						if err := cfg.Unpack(tgt2.Interface(), os_.Opts...); err != nil {
@@ -487,6 +527,10 @@ func c18Space(ts []*tree.Node, offsets []int) *core.Space {
 					}
 					if typed2[0] != typed2[1] || typed2[1] != typed2[2] {
 						res = core.Fail("cross", "FRONTENDS-DISAGREE-TYPED(durations) "+os_.Name, fmt.Sprintf("yaml %s json %s hjson %s", typed2[0], typed2[1], typed2[2]))
+						return
+					}
+					if typed3[0] != typed3[1] || typed3[1] != typed3[2] {
+						res = core.Fail("cross", "FRONTENDS-DISAGREE-TYPED(text) "+os_.Name, fmt.Sprintf("every scalar read into a string field: yaml %s json %s hjson %s", typed3[0], typed3[1], typed3[2]))
 						return
 					}
 					res.Outcome = "valid-in-all-three"
@@ -643,7 +687,7 @@ func init() {
 	core.Register(&core.Check{
 		ID:    "C18",
 		Level: "exploration",
-		Rule:  "JSON-expressible documents (every dict/list shape of depth<=2 over keys {a,b} with lists<=2, leaves assigned cyclically from 31 values: null, booleans, integers incl. 2^53+1 and 2^64-1, floats, and strings that look like other YAML/HJSON/ucfg syntax - '1', 'true', 'null', 'a: b', '#x', '${x}', 'a.b', 'x,y', '[1]', quotes, leading blank, multi-line, non-ASCII) serialised with encoding/json and loaded by yaml.NewConfig, json.NewConfig and hjson.NewConfig under {no options, PathSep, PathSep+VarExp}; per front-end the unpacked data must equal what the front-end's own decoder yields; where the three decoders agree the three configs must unpack to the same generic data (including which keys are present with a null value) and typed data (two StructOf mirrors: numbers as uint64/float64, and numbers as time.Duration); NewConfigWithFile must give the same data and errors must mention source:'<file>'; 8 documents with dotted keys of up to 4 segments (implicit sections, also inside lists and nested objects) loaded from files with PathSep: reading any implicit section as an int fails naming the section and the file, with the same text as the in-memory loader otherwise; 16 inputs without settings (empty, blank, comments only, {}, [], null, document markers) through NewConfig and NewConfigWithFile of each front-end: same verdict, same data, target defaults kept; non-trivial = the document is valid and decoded identically by all three",
+		Rule:  "JSON-expressible documents (every dict/list shape of depth<=2 over keys {a,b} with lists<=2, leaves assigned cyclically from 31 values: null, booleans, integers incl. 2^53+1 and 2^64-1, floats, and strings that look like other YAML/HJSON/ucfg syntax - '1', 'true', 'null', 'a: b', '#x', '${x}', 'a.b', 'x,y', '[1]', quotes, leading blank, multi-line, non-ASCII) serialised with encoding/json and loaded by yaml.NewConfig, json.NewConfig and hjson.NewConfig under {no options, PathSep, PathSep+VarExp}; per front-end the unpacked data must equal what the front-end's own decoder yields; where the three decoders agree the three configs must unpack to the same generic data (including which keys are present with a null value) and typed data (three StructOf mirrors: numbers as uint64/float64, numbers as time.Duration, every scalar as text); NewConfigWithFile must give the same data and errors must mention source:'<file>'; 8 documents with dotted keys of up to 4 segments (implicit sections, also inside lists and nested objects) loaded from files with PathSep: reading any implicit section as an int fails naming the section and the file, with the same text as the in-memory loader otherwise; 16 inputs without settings (empty, blank, comments only, {}, [], null, document markers) through NewConfig and NewConfigWithFile of each front-end: same verdict, same data, target defaults kept; non-trivial = the document is valid and decoded identically by all three",
 		Assumptions: []string{
 			"third-party decoders are trusted and compared with themselves (their quirks are not attributed to ucfg); documents on which they disagree are only checked per front-end",
 			"documents containing ${ are skipped under VarExp (the reference would be unresolvable)",
